@@ -23,10 +23,10 @@ CFG = {
         "value obtained from a run-encoded stream": r"^deser chk b\d+ hex:3b30.* => ok",
     },
     "gaps": [
-        'C05_size, C05_decode (round trip through both decoders, both build configurations, with arbitrary trailing bytes) are proved in full for BitmapWF values',
-        "C05_bytes_partial / C05_deterministic_partial: serialize b = Spec.encode (elems b) is proved modulo ONE named kernel hypothesis, Kernel.bitmap_toArray (for a well-formed bitset chunk, to_array_store's listing has len values < 65536 that re-assemble into the stored words); header, descriptors, offsets, array payloads, chunk keys and chunk grouping of elems are proved. The hypothesis belongs to the BitmapStore lemma library (coordinator) and is exercised at run time by the driver's !SPEC cross-check on every `ser`",
-        'BitmapWF is a local definition (Lemmas/CodecWF.lean) mirroring bitmapWF of Driver/Core.lean; the producer theorems (every API-built value is WF) belong to C01/C02/C04',
-        "C05_offsets (i-th offset = position of chunk i's payload) is implied by C05_bytes + Spec.decode's offset check but not stated separately",
+        'no proof gap: C05_size, C05_decode (round trip through both decoders, both build configurations, with arbitrary trailing bytes), C05_bytes (serialize b = Spec.encode (elems b)), C05_deterministic (+ C05_deterministic_repr via Bitmap.canonical, C05_injective), C05_conformant (the strict reference decoder Spec.decode accepts the output and reads back elems b; offsets are the true payload positions) and C05_is_bytes are proved unconditionally for Bitmap.WF values (the shared invariant of Inv.lean)',
+        'the former kernel hypothesis Kernel.bitmap_toArray is discharged (Lemmas/CodecKernel.lean: bitmap_toArray, from BStore.length_toArray / toArray_lt / toArrayFrom_cons of the shared BitmapStore library)',
+        'the local BitmapWF / StoreWF of Lemmas/CodecWF.lean are proved equivalent to the shared Bitmap.WF / Store.WF (bitmapWF_iff, storeWF_iff); the producer theorems (every API-built value is WF) belong to C01/C02/C04',
+        'C05_offsets (i-th offset = position of chunk i payload) is part of C05_conformant (Spec.decode checks every offset against the true position)',
         'the 64-bit (RoaringTreemap) half is handled by the treemap family',
     ],
     "level_text": "Lean 4 theorems over the executable model of serialize_into / serialized_size / both decoders: size law, "
@@ -36,5 +36,5 @@ CFG = {
                   "correspondence on generated values in two build profiles.",
     "level_note": "Trusted: Lean kernel; SpecCodec.lean as the reading of RoaringFormatSpec (run-free encoder); the model "
                   "mirrors serialization.rs (checked by correspondence only); byteorder/Write::write_all modelled by their "
-                  "contracts. 32-bit half only. Partial theorems are listed in evidence.partial_theorems / proof_gaps.",
+                  "contracts. 32-bit half only.",
 }
